@@ -53,6 +53,15 @@ def make_cube(seed, nt, nr, nc, special=None, nodata=-3000):
     if special == "one-valid":
         a[:, 0, 0] = nodata
         a[0, 0, 0] = 1234
+    if special == "dup-rows":
+        # neighbouring pixels with exactly identical raw series (incl. their gaps) -- a plateau of
+        # equal pixels is what real rasters are full of (water, desert, cloud masks); s52
+        for r in range(1, nr):
+            if g.random() < 0.5:
+                a[:, r, :] = a[:, r - 1, :]
+        for c in range(1, nc):
+            if g.random() < 0.3:
+                a[:, :, c] = a[:, :, c - 1]
     return a
 
 
@@ -79,7 +88,7 @@ def get_kernel():
 # T: real runtime
 # ---------------------------------------------------------------------------
 
-T_SHAPES_QUICK = [(12, 32, 3, None), (9, 1, 5, None), (9, 7, 1, None), (10, 33, 2, "nodata-row"), (6, 4, 4, "one-valid"), (24, 17, 4, None)]
+T_SHAPES_QUICK = [(12, 32, 3, None), (9, 1, 5, None), (9, 7, 1, None), (10, 33, 2, "nodata-row"), (6, 4, 4, "one-valid"), (24, 17, 4, None), (10, 24, 3, "dup-rows"), (8, 13, 4, "dup-rows")]
 
 
 def real_thread_counts(seed, shapes, counts, p_values=(0.9,)):
@@ -339,7 +348,7 @@ def gen_C(key):
     return {
         "cube_seed": rng.randrange(2**32),
         "shape": [nt, nr, nc],
-        "special": rng.choice([None, None, "nodata-row", "one-valid"]),
+        "special": rng.choice([None, None, "nodata-row", "one-valid", "dup-rows"]),
         "p": rng.choice([0.5, 0.9, 0.95]),
         "assign": assign,
         "p_switch": rng.choice([0.02, 0.1, 0.3, 1.0]),
@@ -513,7 +522,7 @@ def job_prange(job):
             if job["T"] != "quick":
                 rng = random.Random(f"{seed}/T")
                 for _ in range(24):
-                    shapes.append((rng.randint(5, 40), rng.randint(1, 48), rng.randint(1, 6), rng.choice([None, None, "nodata-row", "one-valid"])))
+                    shapes.append((rng.randint(5, 40), rng.randint(1, 48), rng.randint(1, 6), rng.choice([None, None, "nodata-row", "one-valid", "dup-rows"])))
             pv = (0.9,) if job["T"] == "quick" else (0.5, 0.9, 0.95)
             viol, n, samples = real_thread_counts(seed, shapes, counts, pv)
             agg.d["runs"] += n
